@@ -64,6 +64,7 @@ def main (args : List String) : IO UInt32 := do
   | ["safety"] => lineLoop stdin stdout XV.Driver.Safety.handle; return 0
   | ["xsdcm"] => lineLoop stdin stdout XV.Driver.Particle.handle; return 0
   | ["xsdcmspec"] => lineLoop stdin stdout XV.Driver.Particle.handleSpec; return 0
+  | ["xsdsg"] => lineLoop stdin stdout XV.Driver.Particle.handleSubst; return 0
   | ["xsd"] => lineLoopS stdin stdout (none : Option XV.Spec.XsdValid.Schema) XV.Driver.XsdValid.handle; return 0
   | ["reader"] => lineLoop stdin stdout XV.Driver.Reader.handle; return 0
   | ["hist"] => lineLoop stdin stdout XV.Driver.Hist.handle; return 0
